@@ -301,3 +301,31 @@ pub proof fn lemma_cyber_cycle_bibo(i: CyberCycleOwn, h: Seq<T>, b: real, rho: r
         assert(run::<CyberCycle<Echo>>((None::<T>, i), h) == (None::<T>, i));
     }
 }
+
+// ---- the contraction bound follows from the coefficient clauses proved on the constructors (rho := |1 - alpha|)
+pub open spec fn abs_r(x: real) -> real { if x >= 0real { x } else { -x } }
+// RoofingFilter::new ensures 0 < alpha < 2 for N >= 3 (clause `new [alpha]`)
+pub proof fn lemma_roofing_filter_bibo_new(i: RoofingFilterOwn, h: Seq<T>, mlen: nat, b: real, ub: real, wb: real, hb: real, m: real)
+    requires mlen >= 1, b >= 0real, m >= 0real, all_within(h, b), 0real < i.alpha.v() < 2real,
+        i.x1.v() == 0real, i.x2.v() == 0real, i.h1.v() == 0real, i.h2.v() == 0real,
+        i.ss.1.c1 == mk(ss_c1(mlen)), i.ss.1.c2 == mk(ss_b1(mlen)), i.ss.1.c3 == mk(ss_c3(mlen)), i.ss.1.f1.v() == 0real, i.ss.1.f2.v() == 0real, i.ss.1.x1.v() == 0real,
+        ub == r_powi(1real - rdiv(i.alpha.v(), 2real), 2) * (4real * b),
+        (1real - abs_r(1real - i.alpha.v())) * wb == ub, (1real - abs_r(1real - i.alpha.v())) * hb == wb,
+        (1real - ss_a1(mlen)) * m == ss_c1(mlen) * hb
+    ensures ({ let s = run::<RoofingFilter<Echo>>((None::<T>, i), h); s.1.alpha == i.alpha && s.1.n == i.n && roof_within(s.1, mlen, b, wb, hb, m) })
+{
+    lemma_roofing_filter_bibo(i, h, mlen, b, abs_r(1real - i.alpha.v()), ub, wb, hb, m);
+}
+// CyberCycle::new sets alpha = 2 / (N + 1), N >= 3:  1/2 <= 1 - alpha < 1
+pub proof fn lemma_cyber_cycle_bibo_new(i: CyberCycleOwn, h: Seq<T>, b: real, ub: real, wb: real, hb: real)
+    requires i.n >= 3, b >= 0real, all_within(h, b), i.vals.len() == 0, i.outs.len() == 0, i.alpha == mk(rdiv(2real, (i.n as real) + 1real)),
+        ub == r_powi(1real - (5real / 10real) * i.alpha.v(), 2) * (4real * b), i.alpha.v() * wb == ub, i.alpha.v() * hb == wb
+    ensures ({ let s = run::<CyberCycle<Echo>>((None::<T>, i), h); s.1.alpha == i.alpha && s.1.n == i.n && cc_within(s.1, b, wb, hb) })
+{
+    let a = i.alpha.v(); let k = (i.n as real) + 1real;
+    lemma_rdiv_mul(2real, k);
+    assert(a * k == 2real);
+    assert(0real < a && a <= 5real / 10real) by(nonlinear_arith) requires a * k == 2real, k >= 4real;
+    assert((1real - (1real - a)) * wb == ub && (1real - (1real - a)) * hb == wb);
+    lemma_cyber_cycle_bibo(i, h, b, 1real - a, ub, wb, hb);
+}
